@@ -43,7 +43,7 @@ func (cl *Cluster) produceVariants(r *Req, req *sarama.ProduceRequest) []gx.Vari
 }
 
 func (cl *Cluster) doProduce(r *Req, req *sarama.ProduceRequest, batches []sarama.VerifBatch, fault string, faultIdx int) {
-	ev := ProduceEvent{Conn: r.Conn.Label, Broker: r.Conn.Node.ID, Fault: fault, Acks: req.RequiredAcks, Version: req.Version, Raw: r.Raw, Batches: batches}
+	ev := ProduceEvent{Conn: r.Conn.Label, Broker: r.Conn.Node.ID, Fault: fault, Acks: req.RequiredAcks, Version: req.Version, Raw: r.Raw, Batches: batches, Step: len(cl.C.Choices)}
 	res := &sarama.ProduceResponse{Version: req.Version}
 	for i, b := range batches {
 		f := "ok"
